@@ -238,8 +238,9 @@ Proof. intros a b. apply key_lt_not_le. Qed.
 Theorem non_pep440_below : forall a b, is_pep440 a = false -> is_pep440 b = true -> ver_lt a b = true.
 Proof.
   intros a b. unfold ver_lt, version_key, is_pep440.
-  destruct (parse_pep440 a); try discriminate. destruct (parse_pep440 b); try discriminate.
-  intros _ _. reflexivity.
+  destruct (parse_pep440 a) as [v|]; [intros H; discriminate H|]. intros _.
+  destruct (parse_pep440 b) as [w|]; [|intros H; discriminate H]. intros _.
+  unfold legacy_key, cmpkey. reflexivity.
 Qed.
 
 (* ------------------------------------------------------------------ PEP 440 ordering rules on parsed versions *)
